@@ -82,6 +82,10 @@ mod tests;
 mod utils;
 /// The value type used by Tera and supporting types (`Key`, `Map`, `Number`, `ValueKind`).
 pub mod value;
+/// Hooks used by external verification tooling, only built with `--cfg tera_verif`
+#[cfg(tera_verif)]
+#[doc(hidden)]
+pub mod verif;
 pub(crate) mod vm;
 
 pub use crate::tera::{EscapeFn, Tera};
